@@ -219,3 +219,310 @@ Proof.
       apply in_app_or in X. destruct X as [X|X]; [apply Hn; right; right; apply in_or_app; left; exact X|].
       destruct (Hfr b X) as [Old|Fresh]; [apply Hn; right; right; apply in_or_app; right; exact Old|lia].
 Qed.
+
+(* ------------------------------------------------------------------ the redo branch is gone, the array may have moved *)
+Definition lbT (lb : lbuf) (sz' : nat) : lbuf :=
+  {| ln := ln lb; hist := firstn (hist_u lb) (hist lb); hist_u := hist_u lb; hist_sz := sz';
+     useq := useq lb; useq_zero := useq_zero lb; useq_last := useq_last lb |}.
+
+Lemma nth_firstn_lt' {A} (l : list A) : forall n i d, (i < n)%nat -> nth i (firstn n l) d = nth i l d.
+Proof. induction l as [|a l IH]; intros [|n] [|i] d H; try reflexivity; try lia. cbn [firstn nth]. apply IH. lia. Qed.
+
+Lemma urep_trunc T (m m' : mem) bl (blk blk' : block) bh bh' (hblk hblk' : block) lb sz' :
+  T_frame T -> urep T m bl blk bh hblk lb -> let u := hist_u lb in let n := length (hist lb) in
+  nth_error m' bl = Some blk' -> length blk' = LBUF_CELLS -> ints_upto blk' 64 ->
+  (forall j, (64 <= j)%nat -> j <> L_hist -> j <> L_hist_sz -> j <> L_hist_n -> nth_error blk' j = nth_error blk j) ->
+  nth_error blk' L_hist = Some (VPtr bh' 0) -> nth_error blk' L_hist_sz = Some (VInt (Z.of_nat sz')) ->
+  nth_error blk' L_hist_n = Some (VInt (Z.of_nat u)) ->
+  nth_error m' bh' = Some hblk' -> length hblk' = (9 * sz')%nat -> (forall j, (j < 9 * u)%nat -> hc hblk' j = hc hblk j) ->
+  (u <= sz')%nat -> (0 < sz')%nat -> i31 sz' ->
+  (bh' = bh \/ (length m <= bh')%nat) -> (length m <= length m')%nat ->
+  (forall b, (b < length m)%nat -> b <> bl -> b <> bh -> ~ In b (log_blocks hblk u (n - u)) -> nth_error m' b = nth_error m b) ->
+  urep T m' bl blk' bh' hblk' (lbT lb sz').
+Proof.
+  intros TF [Hb L I Cn Rn Cq Ch Csz Cnn Cu Cz Cl Rg Hh Hl He Ho (fp & Ht & Hfp)] u n Hb' L' I' E C69 C70 C71 Hh' Ll Hc Hus Hz Hi Hbh' Hlen Hk.
+  destruct Rg as (Rq & (Ru & Rs) & Rz & Rsz). fold u in Ru. fold n in Ru, Rs, He, Ho, Hfp.
+  unfold owned in *. rewrite (log_blocks_split hblk u n Ru) in Ho, Hfp.
+  change (bl :: bh :: log_blocks hblk 0 u ++ log_blocks hblk u (n - u)) with ([bl; bh] ++ log_blocks hblk 0 u ++ log_blocks hblk u (n - u)) in Ho.
+  apply NoDup_app_iff' in Ho. destruct Ho as (Ho1 & Ho2 & Ho3). apply NoDup_app_iff' in Ho2. destruct Ho2 as (Ho2 & Ho4 & Ho5).
+  assert (Hbl : (bl < length m)%nat) by (apply nth_error_Some; congruence).
+  assert (Hbh : (bh < length m)%nat) by (apply nth_error_Some; congruence).
+  assert (Nhl : bh <> bl) by (intro X; subst; inversion Ho1 as [|? ? Hn _]; apply Hn; left; reflexivity).
+  assert (Hlb : log_blocks hblk' 0 u = log_blocks hblk 0 u) by (apply log_blocks_cells; intros j Hj; apply Hc; lia).
+  assert (Hlive : forall b, In b (log_blocks hblk 0 u) -> (b < length m)%nat).
+  { intros b Hb0. unfold log_blocks in Hb0. apply in_flat_map in Hb0. destruct Hb0 as (i & Hi' & Hb0). apply in_seq in Hi'.
+    apply (ent_blocks_live m hblk i (nth i (hist lb) dflt)); [apply He; lia|exact Hb0]. }
+  assert (Hkeep : forall b, In b (log_blocks hblk 0 u) -> nth_error m' b = nth_error m b).
+  { intros b Hb0. apply Hk; [apply Hlive; exact Hb0| | |].
+    - intro X; subst. apply (Ho3 bl); [left; reflexivity|apply in_or_app; left; exact Hb0].
+    - intro X; subst. apply (Ho3 bh); [right; left; reflexivity|apply in_or_app; left; exact Hb0].
+    - apply Ho5. exact Hb0. }
+  assert (Lf : length (firstn (hist_u lb) (hist lb)) = hist_u lb) by (rewrite firstn_length; fold n u; lia).
+  assert (Nbh' : bh' <> bl /\ ~ In bh' (log_blocks hblk 0 u)).
+  { destruct Hbh' as [->|Fr]; [split; [exact Nhl|]; intro X; apply (Ho3 bh); [right; left; reflexivity|apply in_or_app; left; exact X]|].
+    split; [lia|]. intro X. apply Hlive in X. lia. }
+  constructor; cbn [lbT ln hist hist_u hist_sz useq useq_zero useq_last]; rewrite ?Lf; fold u; try assumption;
+    try (rewrite E by (unfold L_hist_u, L_ln_n, L_useq, L_hist, L_hist_sz, L_hist_n, L_useq_zero, L_useq_last; lia); assumption).
+  - split; [exact Rq|]. split; [split; [lia|exact Hus]|]. split; assumption.
+  - intros i Hi'. rewrite nth_firstn_lt' by exact Hi'.
+    apply (ent_rep_cells m' hblk hblk' i); [|intros k Hk'; apply Hc; lia].
+    apply (ent_rep_keeps m m' hblk i _ (He i ltac:(lia))). intros b Hb0. apply Hkeep. apply (in_log_blocks hblk i u b Hi' Hb0).
+  - unfold owned. rewrite Hlb. change (bl :: bh' :: log_blocks hblk 0 u) with ([bl; bh'] ++ log_blocks hblk 0 u).
+    apply NoDup_app_iff'. split; [constructor; [intros [X|[]]; apply (proj1 Nbh'); auto|constructor; [intros []|constructor]]|].
+    split; [exact Ho2|]. intros x Hx X. destruct Hx as [<-|[<-|[]]]; [apply (Ho3 bl); [left; reflexivity|apply in_or_app; left; exact X]|apply (proj2 Nbh'); exact X].
+  - exists fp. split.
+    + rewrite (tcells_eq blk blk' L) by (intros j Hj; apply E; unfold L_hist, L_hist_sz, L_hist_n; lia).
+      apply (TF m); [exact Ht|]. intros b Hb0. destruct (Hfp b Hb0) as (Hn & Hlv). apply Hk; [exact Hlv| | |].
+      * intro X; subst. apply Hn. left. reflexivity.
+      * intro X; subst. apply Hn. right. left. reflexivity.
+      * intro X. apply Hn. right. right. apply in_or_app. right. exact X.
+    + intros b Hb0. destruct (Hfp b Hb0) as (Hn & Hlv). split; [|lia]. unfold owned. rewrite Hlb.
+      intros [X|[X|X]]; [apply Hn; left; exact X| |apply Hn; right; right; apply in_or_app; left; exact X].
+      destruct Hbh' as [->|Fr]; [apply Hn; right; left; exact X|lia].
+Qed.
+
+(* ------------------------------------------------------------------ a record is appended (all four pointers NULL at first) *)
+Definition push (lb : lbuf) (lo : lopt) : lbuf :=
+  {| ln := ln lb; hist := hist lb ++ [lo]; hist_u := S (hist_u lb); hist_sz := hist_sz lb;
+     useq := useq lb; useq_zero := useq_zero lb; useq_last := useq_last lb |}.
+
+Lemma urep_push T (m : mem) bl (blk blk' : block) bh (hblk hblk' : block) lb lo :
+  T_frame T -> urep T m bl blk bh hblk lb -> hist_u lb = length (hist lb) -> (length (hist lb) < hist_sz lb)%nat ->
+  let u := length (hist lb) in
+  length blk' = LBUF_CELLS -> ints_upto blk' 64 ->
+  (forall j, (64 <= j)%nat -> j <> L_hist_n -> j <> L_hist_u -> nth_error blk' j = nth_error blk j) ->
+  nth_error blk' L_hist_n = Some (VInt (Z.of_nat (S u))) -> nth_error blk' L_hist_u = Some (VInt (Z.of_nat (S u))) ->
+  length hblk' = length hblk -> (forall k, ~ (9 * u <= k < 9 * u + 9)%nat -> hc hblk' k = hc hblk k) ->
+  ent_rep (upd (upd m bh hblk') bl blk') hblk' u lo -> ent_blocks hblk' u = [] ->
+  urep T (upd (upd m bh hblk') bl blk') bl blk' bh hblk' (push lb lo).
+Proof.
+  intros TF [Hb L I Cn Rn Cq Ch Csz Cnn Cu Cz Cl Rg Hh Hl He Ho (fp & Ht & Hfp)] Hun Hroom u L' I' E C71 C72 Ll Hc E' Hnil.
+  destruct Rg as (Rq & (Ru & Rs) & Rz & Rsz).
+  assert (Hbl : (bl < length m)%nat) by (apply nth_error_Some; congruence).
+  assert (Hbh : (bh < length m)%nat) by (apply nth_error_Some; congruence).
+  assert (Nhl : bh <> bl) by (intro X; subst; inversion Ho as [|? ? Hn _]; apply Hn; left; reflexivity).
+  set (m' := upd (upd m bh hblk') bl blk') in *.
+  assert (Lm1 : length (upd m bh hblk') = length m) by (apply upd_length; exact Hbh).
+  assert (Lm' : length m' = length m) by (unfold m'; rewrite upd_length by (rewrite Lm1; exact Hbl); exact Lm1).
+  assert (Hk : forall b, b <> bl -> b <> bh -> nth_error m' b = nth_error m b).
+  { intros b N1 N2. unfold m'. rewrite mem_upd_other by (rewrite ?Lm1; assumption). apply mem_upd_other; assumption. }
+  assert (Hlb : log_blocks hblk' 0 u = log_blocks hblk 0 u) by (apply log_blocks_cells; intros j Hj; apply Hc; lia).
+  assert (Hnl : forall b, In b (log_blocks hblk 0 u) -> b <> bl /\ b <> bh).
+  { intros b Hb0. unfold owned in Ho. inversion Ho as [|? ? N1 Ho']; subst. inversion Ho' as [|? ? N2 _]; subst. fold u in N1, N2.
+    split; intro X; subst; [apply N1; right; exact Hb0|apply N2; exact Hb0]. }
+  constructor; cbn [push ln hist hist_u hist_sz useq useq_zero useq_last]; rewrite ?app_length; cbn [length];
+    replace (length (hist lb) + 1)%nat with (S u) by (unfold u; lia); rewrite ?Hun; fold u; try assumption;
+    try (rewrite E by (unfold L_hist_u, L_ln_n, L_useq, L_hist, L_hist_sz, L_hist_n, L_useq_zero, L_useq_last; lia); assumption).
+  - unfold m'. apply mem_upd_same. rewrite Lm1. exact Hbl.
+  - split; [exact Rq|]. split; [split; [lia|fold u in Hroom; lia]|]. split; assumption.
+  - unfold m'. rewrite mem_upd_other by (rewrite ?Lm1; assumption). apply mem_upd_same. exact Hbh.
+  - rewrite Ll. exact Hl.
+  - intros i Hi. destruct (Nat.eq_dec i u) as [->|Hne].
+    + unfold u. rewrite app_nth2 by lia. rewrite Nat.sub_diag. exact E'.
+    + assert (Hiu : (i < u)%nat) by lia. rewrite app_nth1 by (fold u; lia).
+      apply (ent_rep_cells m' hblk hblk' i); [|intros k Hk'; apply Hc; lia].
+      apply (ent_rep_keeps m m' hblk i _ (He i Hiu)). intros b Hb0.
+      destruct (Hnl b (in_log_blocks hblk i u b Hiu Hb0)) as (N1 & N2). apply Hk; assumption.
+  - unfold owned. rewrite log_blocks_snoc, Hlb, Hnil, app_nil_r. exact Ho.
+  - exists fp. split.
+    + rewrite (tcells_eq blk blk' L) by (intros j Hj; apply E; unfold L_hist_u, L_hist_n; lia).
+      apply (TF m); [exact Ht|]. intros b Hb0. destruct (Hfp b Hb0) as (Hn & Hlv). apply Hk; intro X; subst; apply Hn; [left|right; left]; reflexivity.
+    + intros b Hb0. destruct (Hfp b Hb0) as (Hn & Hlv). split; [|lia]. unfold owned. rewrite log_blocks_snoc, Hlb, Hnil, app_nil_r. exact Hn.
+Qed.
+
+Lemma nth_error_app_new' {A} (m : list A) x n : n = length m -> nth_error (m ++ [x]) n = Some x.
+Proof. intros ->. apply nth_error_app_new. Qed.
+
+(* ------------------------------------------------------------------ the statements of lbuf_opt *)
+Definition opt_body : stmt := fn_body cf_lbuf_opt.
+Definition opt_drop : stmt := match opt_body with SSeq a _ => a | _ => SSkip end.
+Definition opt_drop_loop : stmt := match opt_drop with SSeq _ l => l | _ => SSkip end.
+Definition opt_rest1 : stmt := match opt_body with SSeq _ r => r | _ => SSkip end.          (* hist_n = hist_u; grow; append *)
+Definition opt_setn : stmt := match opt_rest1 with SSeq a _ => a | _ => SSkip end.
+Definition opt_rest2 : stmt := match opt_rest1 with SSeq _ r => r | _ => SSkip end.
+Definition opt_grow : stmt := match opt_rest2 with SSeq a _ => a | _ => SSkip end.
+Definition opt_rest3 : stmt := match opt_rest2 with SSeq _ r => r | _ => SSkip end.          (* the append *)
+Lemma opt_body_eq : opt_body = SSeq opt_drop (SSeq opt_setn (SSeq opt_grow opt_rest3)). Proof. reflexivity. Qed.
+
+Lemma x_lbuf_cp_none : nth_error cprog X_lbuf_cp = None. Proof. vm_compute. reflexivity. Qed.
+
+Section Opt.
+  Variable ext : nat -> list val -> mem -> res (val * mem).
+  Variables (d fuel : nat).
+  Let cx := callx ext cprog fuel (S (S (S d))).
+
+  (* for (i = lb->hist_u; i < lb->hist_n; i++) lopt_done(&lb->hist[i]); *)
+  Lemma opt_drop_loop_ok bl (blk : block) bh (hblk : block) n (bufv pv ndv l4 l6 l7 : val) :
+    nth_error blk L_hist_n = Some (VInt (Z.of_nat n)) -> nth_error blk L_hist = Some (VPtr bh 0) ->
+    (9 * n <= length hblk)%nat -> Z.of_nat n <= 2147483647 ->
+    forall k i (m m1 : mem) fuel', (i + k = n)%nat -> nth_error m bl = Some blk -> nth_error m bh = Some hblk ->
+    TrLbuf.avoids (TrLbuf.ptrs_from hblk i k) [bl; bh] -> TrLbuf.free_list (TrLbuf.ptrs_from hblk i k) m = Ok m1 -> (k < fuel')%nat ->
+    exec cx fuel' opt_drop_loop (mkst [VPtr bl 0; bufv; pv; ndv; l4; VInt (Z.of_nat i); l6; l7] m)
+    = ONormal (mkst [VPtr bl 0; bufv; pv; ndv; l4; VInt (Z.of_nat n); l6; l7] m1).
+  Proof.
+    intros Hn Hp Hlen Hmax. induction k as [|k IH]; intros i m m1 fuel' Hik Hb Hh Ha Hf Hfu; (destruct fuel' as [|fuel']; [lia|]);
+      unfold opt_drop_loop, opt_drop, opt_body; cbn [fn_body cf_lbuf_opt]; rewrite exec_for; xstep; xfld Hb Hn;
+      rewrite wrap_I32_id by lia.
+    - assert (i = n) by lia. subst i. destruct (Z.ltb_spec (Z.of_nat n) (Z.of_nat n)); [lia|]. xstep.
+      cbn in Hf. injection Hf as <-. reflexivity.
+    - destruct (Z.ltb_spec (Z.of_nat i) (Z.of_nat n)); [|lia]. xstep. xfld Hb Hp.
+      unfold TrLbuf.ptrs_from in Hf, Ha. cbn [List.seq flat_map] in Hf, Ha. fold (TrLbuf.ptrs_from hblk (S i) k) in Hf, Ha.
+      rewrite TrLbuf.free_list_app in Hf. destruct (TrLbuf.free_list (TrLbuf.ent_ptrs hblk i) m) as [ma|] eqn:E; [|discriminate].
+      destruct (TrLbuf.avoids_app _ _ _ Ha) as [A1 A2].
+      assert (A1h : TrLbuf.avoids (TrLbuf.ent_ptrs hblk i) [bh]).
+      { intros v b Hin Hv Hk. apply (A1 v b Hin Hv). destruct Hk as [<-|[]]. right; left; reflexivity. }
+      replace (0 + 9 * Z.of_nat i) with (Z.of_nat (9 * i)) by lia.
+      unfold cx at 1. rewrite (callx_mono ext _ _ _ _ _ _ _ (TrLbuf.tr_lopt_done m bh hblk i ma (S (S d)) fuel Hh ltac:(lia) A1h E)). xstep.
+      rewrite chk_I32 by lia. xstep. replace (Z.of_nat i + 1) with (Z.of_nat (S i)) by lia.
+      assert (Hb' : nth_error ma bl = Some blk) by (rewrite (TrLbuf.free_list_keeps _ m ma [bl; bh] bl E A1 (or_introl eq_refl)); exact Hb).
+      assert (Hh' : nth_error ma bh = Some hblk) by (rewrite (TrLbuf.free_list_keeps _ m ma [bl; bh] bh E A1 (or_intror (or_introl eq_refl))); exact Hh).
+      specialize (IH (S i) ma m1 fuel' ltac:(lia) Hb' Hh' A2 Hf ltac:(lia)).
+      unfold opt_drop_loop, opt_drop, opt_body in IH; cbn [fn_body cf_lbuf_opt] in IH. exact IH.
+  Qed.
+  Variable T : Tpred.
+  Hypothesis TF : T_frame T.
+
+  (* the whole first statement: every block the redo branch owns is emptied, nothing else changes *)
+  Lemma opt_drop_ok (m : mem) bl (blk : block) bh (hblk : block) lb (bufv pv ndv l4 l5 l6 l7 : val) :
+    urep T m bl blk bh hblk lb -> (length (hist lb) - hist_u lb < fuel)%nat ->
+    let D := log_blocks hblk (hist_u lb) (length (hist lb) - hist_u lb) in
+    exec cx fuel opt_drop (mkst [VPtr bl 0; bufv; pv; ndv; l4; l5; l6; l7] m)
+    = ONormal (mkst [VPtr bl 0; bufv; pv; ndv; l4; VInt (Z.of_nat (length (hist lb))); l6; l7] (free_blocks D m)) /\
+    NoDup D /\ all_live D m /\ ~ In bl D /\ ~ In bh D.
+  Proof.
+    intros [Hb L I Cn Rn Cq Ch Csz Cnn Cu Cz Cl Rg Hh Hl He Ho Ht] Hf D. destruct Rg as (Rq & (Ru & Rs) & Rz & Rsz).
+    set (u := hist_u lb) in *. set (n := length (hist lb)) in *.
+    unfold owned in Ho. rewrite (log_blocks_split hblk u n Ru) in Ho. fold D in Ho.
+    change (bl :: bh :: log_blocks hblk 0 u ++ D) with ([bl; bh] ++ log_blocks hblk 0 u ++ D) in Ho.
+    apply NoDup_app_iff' in Ho. destruct Ho as (Ho1 & Ho2 & Ho3). apply NoDup_app_iff' in Ho2. destruct Ho2 as (Ho2 & Ho4 & Ho5).
+    assert (NblD : ~ In bl D) by (intro X; apply (Ho3 bl); [left; reflexivity|apply in_or_app; right; exact X]).
+    assert (NbhD : ~ In bh D) by (intro X; apply (Ho3 bh); [right; left; reflexivity|apply in_or_app; right; exact X]).
+    assert (HF : Forall (freeable m) (TrLbuf.ptrs_from hblk u (n - u))) by (apply (ptrs_freeable m hblk (hist lb)); intros j Hj; apply He; lia).
+    assert (Hfl : TrLbuf.free_list (TrLbuf.ptrs_from hblk u (n - u)) m = Ok (free_blocks D m)).
+    { rewrite (free_list_ok _ m HF) by (rewrite ptrs_blocks; exact Ho4). rewrite ptrs_blocks. reflexivity. }
+    assert (Hav : TrLbuf.avoids (TrLbuf.ptrs_from hblk u (n - u)) [bl; bh]).
+    { intros v b Hin Hv Hk. assert (In b D).
+      { unfold D. rewrite <- ptrs_blocks. apply in_flat_map. exists v. split; [exact Hin|]. destruct v; try discriminate. injection Hv as <-. left. reflexivity. }
+      destruct Hk as [<-|[<-|[]]]; contradiction. }
+    assert (Hlive : all_live D m).
+    { intros b Hb0. unfold D, log_blocks in Hb0. apply in_flat_map in Hb0. destruct Hb0 as (i & Hi & Hb0). apply in_seq in Hi.
+      apply (ent_blocks_live m hblk i (nth i (hist lb) dflt)); [apply He; lia|exact Hb0]. }
+    split; [|auto].
+    unfold opt_drop, opt_body; cbn [fn_body cf_lbuf_opt]. rewrite exec_seq. xstep. xfld Hb Cu. rewrite wrap_I32_id by (unfold i31 in *; lia).
+    pose proof (opt_drop_loop_ok bl blk bh hblk n bufv pv ndv l4 l6 l7 Cnn Ch ltac:(lia) ltac:(unfold i31 in *; lia)
+                  (n - u)%nat u m (free_blocks D m) fuel ltac:(lia) Hb Hh Hav Hfl Hf) as X.
+    unfold opt_drop_loop, opt_drop, opt_body in X; cbn [fn_body cf_lbuf_opt] in X. exact X.
+  Qed.
+  (* lb->hist_n = lb->hist_u;  if (lb->hist_n == lb->hist_sz) { grow } *)
+  Lemma opt_setn_grow_ok (m1 : mem) bl (blk : block) bh (hblk : block) u n sz (bufv pv ndv l4 l5 l6 l7 : val) :
+    nth_error m1 bl = Some blk -> length blk = LBUF_CELLS -> bh <> bl -> nth_error m1 bh = Some hblk ->
+    length hblk = (9 * sz)%nat -> (0 < sz)%nat -> (u <= sz)%nat -> Z.of_nat sz * 2 <= 2147483647 ->
+    nth_error blk L_hist = Some (VPtr bh 0) -> nth_error blk L_hist_sz = Some (VInt (Z.of_nat sz)) ->
+    nth_error blk L_hist_n = Some (VInt (Z.of_nat n)) -> nth_error blk L_hist_u = Some (VInt (Z.of_nat u)) ->
+    let sz' := if Nat.eqb u sz then (sz + sz)%nat else sz in
+    let blkB := upd blk L_hist_n (VInt (Z.of_nat u)) in
+    exists (m' : mem) (blk' : block) bh' (hblk' : block) (v6 v7 : val),
+      exec cx fuel opt_setn (mkst [VPtr bl 0; bufv; pv; ndv; l4; l5; l6; l7] m1)
+        = ONormal (mkst [VPtr bl 0; bufv; pv; ndv; l4; l5; l6; l7] (upd m1 bl blkB)) /\
+      exec cx fuel opt_grow (mkst [VPtr bl 0; bufv; pv; ndv; l4; l5; l6; l7] (upd m1 bl blkB))
+        = ONormal (mkst [VPtr bl 0; bufv; pv; ndv; l4; l5; v6; v7] m') /\
+      nth_error m' bl = Some blk' /\ length blk' = LBUF_CELLS /\
+      (forall j, j <> L_hist -> j <> L_hist_sz -> j <> L_hist_n -> nth_error blk' j = nth_error blk j) /\
+      nth_error blk' L_hist = Some (VPtr bh' 0) /\ nth_error blk' L_hist_sz = Some (VInt (Z.of_nat sz')) /\
+      nth_error blk' L_hist_n = Some (VInt (Z.of_nat u)) /\
+      nth_error m' bh' = Some hblk' /\ length hblk' = (9 * sz')%nat /\ (forall j, (j < 9 * u)%nat -> hc hblk' j = hc hblk j) /\
+      (bh' = bh \/ (length m1 <= bh')%nat) /\ (length m1 <= length m')%nat /\
+      (forall b, (b < length m1)%nat -> b <> bl -> b <> bh -> nth_error m' b = nth_error m1 b) /\
+      (bh' <> bh -> nth_error m' bh = Some []).
+  Proof.
+    intros Hb L Nhl Hh Hl Hz Hus Hmax C69 C70 C71 C72 sz' blkB.
+    assert (Hbl : (bl < length m1)%nat) by (apply nth_error_Some; congruence).
+    assert (Hbh : (bh < length m1)%nat) by (apply nth_error_Some; congruence).
+    assert (LB : length blkB = LBUF_CELLS) by (unfold blkB; rewrite upd_length; [exact L|rewrite L; unfold LBUF_CELLS, L_hist_n; lia]).
+    assert (HbB : nth_error (upd m1 bl blkB) bl = Some blkB) by (apply mem_upd_same; exact Hbl).
+    assert (CB : forall j, j <> L_hist_n -> nth_error blkB j = nth_error blk j).
+    { intros j Hj. unfold blkB. apply nth_error_upd_other; [rewrite L; unfold LBUF_CELLS, L_hist_n; lia|exact Hj]. }
+    assert (CB71 : nth_error blkB L_hist_n = Some (VInt (Z.of_nat u))) by (unfold blkB; apply nth_error_upd_same; rewrite L; unfold LBUF_CELLS, L_hist_n; lia).
+    assert (Esetn : exec cx fuel opt_setn (mkst [VPtr bl 0; bufv; pv; ndv; l4; l5; l6; l7] m1)
+                    = ONormal (mkst [VPtr bl 0; bufv; pv; ndv; l4; l5; l6; l7] (upd m1 bl blkB))).
+    { unfold opt_setn, opt_rest1, opt_body; cbn [fn_body cf_lbuf_opt]. xstep. xfld Hb C72. rewrite !(wrap_I32_id (Z.of_nat u)) by lia.
+      rewrite (fld_store m1 bl blk L_hist_n _ _ Hb) by (try reflexivity; rewrite L; unfold LBUF_CELLS, L_hist_n; lia). reflexivity. }
+    unfold opt_grow, opt_rest2, opt_rest1, opt_body; cbn [fn_body cf_lbuf_opt]. rewrite exec_if. xstep.
+    xfld HbB CB71. assert (CB70 : nth_error blkB L_hist_sz = Some (VInt (Z.of_nat sz))) by (rewrite CB by (unfold L_hist_sz, L_hist_n; lia); exact C70).
+    xfld HbB CB70. rewrite !wrap_I32_id by lia.
+    destruct (Nat.eqb_spec u sz) as [Eus|Nus].
+    2:{ (* room left *)
+      destruct (Z.eqb_spec (Z.of_nat u) (Z.of_nat sz)); [lia|]. xstep.
+      exists (upd m1 bl blkB), blkB, bh, hblk, l6, l7. split; [exact Esetn|]. split; [reflexivity|]. split; [exact HbB|]. split; [exact LB|].
+      split; [intros j _ _ Hj; apply CB; exact Hj|]. split; [rewrite CB by (unfold L_hist, L_hist_n; lia); exact C69|].
+      split; [exact CB70|]. split; [exact CB71|]. split; [rewrite mem_upd_other by assumption; exact Hh|]. split; [exact Hl|].
+      split; [reflexivity|]. split; [left; reflexivity|]. split; [rewrite upd_length by exact Hbl; lia|].
+      split; [intros b _ Nb _; apply mem_upd_other; assumption|]. intro X. congruence. }
+    subst u. rewrite Z.eqb_refl. xstep.
+    xfld HbB CB70. xfld HbB CB70. rewrite !(wrap_I32_id (Z.of_nat sz)) by lia.
+    replace (Z.of_nat sz =? 0) with false by (symmetry; apply Z.eqb_neq; lia). xstep.
+    xfld HbB CB70. rewrite !(wrap_I32_id (Z.of_nat sz)) by lia. rewrite chk_I32 by lia. xstep.
+    set (z2 := Z.of_nat sz + Z.of_nat sz).
+    rewrite (wrap_U64_id z2) by (unfold z2; lia). rewrite chk_U64 by (unfold z2; lia). xstep. rewrite chk_U64 by (unfold z2; lia). xstep.
+    change (56 =? 0) with false. cbv iota. replace (z2 * 56 * 9) with (z2 * 9 * 56) by lia. rewrite Z.quot_mul by lia.
+    rewrite chk_U64 by (unfold z2; lia). xstep. rewrite malloc_ok by (unfold z2; lia). xstep.
+    set (mB := upd m1 bl blkB) in *. set (U := repeat VUndef (Z.to_nat (z2 * 9))).
+    assert (LmB : length mB = length m1) by (apply upd_length; exact Hbl).
+    assert (LU : length U = (9 * (sz + sz))%nat) by (unfold U, z2; rewrite repeat_length; lia).
+    assert (HhB : nth_error mB bh = Some hblk) by (unfold mB; rewrite mem_upd_other by assumption; exact Hh).
+    assert (Hbl1 : nth_error (mB ++ [U]) bl = Some blkB) by (rewrite nth_error_app_old by lia; exact HbB).
+    assert (CB69 : nth_error blkB L_hist = Some (VPtr bh 0)) by (rewrite CB by (unfold L_hist, L_hist_n; lia); exact C69).
+    xfld Hbl1 CB69. xfld Hbl1 CB71. rewrite !(wrap_I32_id (Z.of_nat sz)) by lia. rewrite (wrap_U64_id (Z.of_nat sz)) by lia.
+    rewrite chk_U64 by lia. xstep. rewrite chk_U64 by lia. xstep.
+    change (56 =? 0) with false. cbv iota. replace (Z.of_nat sz * 56 * 9) with (Z.of_nat sz * 9 * 56) by lia. rewrite Z.quot_mul by lia.
+    rewrite chk_U64 by lia. xstep.
+    rewrite (memcpy_ok (mB ++ [U]) (length mB) 0 bh 0 (Z.of_nat sz * 9) U hblk)
+      by (try lia; try (apply nth_error_app_new); try (rewrite nth_error_app_old by lia; exact HhB)).
+    xstep. rewrite upd_app_new. change (Z.to_nat 0) with 0%nat. rewrite put_cells_0. cbn [skipn].
+    set (newblk := firstn (Z.to_nat (Z.of_nat sz * 9)) hblk ++ skipn (length (firstn (Z.to_nat (Z.of_nat sz * 9)) hblk)) U).
+    assert (Hbl2 : nth_error (mB ++ [newblk]) bl = Some blkB) by (rewrite nth_error_app_old by lia; exact HbB).
+    xfld Hbl2 CB69.
+    match goal with |- context [do_builtin_m BFree [VPtr bh 0] ?mm] =>
+      rewrite (free_ok mm bh hblk) by (try (rewrite nth_error_app_old by lia; exact HhB); intro X; rewrite X in Hl; cbn in Hl; lia) end.
+    xstep. rewrite upd_app_old by lia.
+    assert (LmF : length (upd mB bh []) = length m1) by (rewrite upd_length by lia; exact LmB).
+    assert (Hbl3 : nth_error (upd mB bh [] ++ [newblk]) bl = Some blkB).
+    { rewrite nth_error_app_old by lia. rewrite mem_upd_other by (try lia; congruence). exact HbB. }
+    rewrite (fld_store _ bl blkB L_hist _ _ Hbl3) by (try reflexivity; rewrite LB; unfold LBUF_CELLS, L_hist; lia). xstep.
+    rewrite (wrap_I32_id z2) by (unfold z2; lia).
+    rewrite upd_app_old by lia.
+    set (blkC1 := upd blkB L_hist (VPtr (length mB) 0)).
+    assert (LC1 : length blkC1 = LBUF_CELLS) by (unfold blkC1; rewrite upd_length; [exact LB|rewrite LB; unfold LBUF_CELLS, L_hist; lia]).
+    rewrite (fld_store (upd (upd mB bh []) bl blkC1 ++ [newblk]) bl blkC1 L_hist_sz)
+      by (try reflexivity; try (rewrite LC1; unfold LBUF_CELLS, L_hist_sz; lia); rewrite nth_error_app_old by (rewrite upd_length by lia; lia); apply mem_upd_same; lia).
+    xstep. rewrite upd_app_old by (rewrite upd_length by lia; lia). rewrite upd_upd by lia.
+    set (blkC := upd blkC1 L_hist_sz (VInt z2)).
+    assert (LC : length blkC = LBUF_CELLS) by (unfold blkC; rewrite upd_length; [exact LC1|rewrite LC1; unfold LBUF_CELLS, L_hist_sz; lia]).
+    assert (Lfn : length (firstn (Z.to_nat (Z.of_nat sz * 9)) hblk) = (9 * sz)%nat) by (rewrite firstn_length, Hl; lia).
+    assert (Lnew : length newblk = (9 * (sz + sz))%nat) by (unfold newblk; rewrite app_length, skipn_length, Lfn, LU; lia).
+    assert (Ln2 : length (upd (upd mB bh []) bl blkC) = length m1) by (rewrite upd_length by lia; exact LmF).
+    exists (upd (upd mB bh []) bl blkC ++ [newblk]), blkC, (length mB), newblk, (VInt z2), (VPtr (length mB) 0).
+    split; [exact Esetn|]. split; [reflexivity|].
+    split; [rewrite nth_error_app_old by lia; apply mem_upd_same; lia|]. split; [exact LC|].
+    assert (CC : forall j, j <> L_hist -> j <> L_hist_sz -> nth_error blkC j = nth_error blkB j).
+    { intros j J1 J2. unfold blkC. rewrite nth_error_upd_other by (try assumption; rewrite LC1; unfold LBUF_CELLS, L_hist_sz; lia).
+      unfold blkC1. apply nth_error_upd_other; [rewrite LB; unfold LBUF_CELLS, L_hist; lia|exact J1]. }
+    split; [intros j J1 J2 J3; rewrite CC by assumption; apply CB; exact J3|].
+    split.
+    { unfold blkC. rewrite nth_error_upd_other by (try (unfold L_hist, L_hist_sz; lia); rewrite LC1; unfold LBUF_CELLS, L_hist_sz; lia).
+      unfold blkC1. apply nth_error_upd_same. rewrite LB; unfold LBUF_CELLS, L_hist; lia. }
+    split.
+    { unfold blkC. rewrite nth_error_upd_same by (rewrite LC1; unfold LBUF_CELLS, L_hist_sz; lia). unfold sz', z2.
+      rewrite ?Nat.eqb_refl. rewrite Nat2Z.inj_add. reflexivity. }
+    split; [rewrite CC by (unfold L_hist, L_hist_sz, L_hist_n; lia); exact CB71|].
+    split; [apply nth_error_app_new'; rewrite Ln2; exact LmB|].
+    split; [unfold sz'; rewrite ?Nat.eqb_refl; exact Lnew|].
+    split.
+    { intros j Hj. unfold hc, newblk. rewrite app_nth1 by lia. apply nth_firstn_lt'. lia. }
+    split; [right; lia|]. split; [rewrite app_length, Ln2; lia|].
+    split.
+    { intros b Hb0 N1 N2. rewrite nth_error_app_old by lia. rewrite mem_upd_other by (try lia; exact N1).
+      rewrite mem_upd_other by (try lia; exact N2). unfold mB. apply mem_upd_other; [exact Hbl|exact N1]. }
+    intros _. rewrite nth_error_app_old by lia. rewrite mem_upd_other by (try lia; congruence). apply mem_upd_same. lia.
+  Qed.
+End Opt.
